@@ -375,12 +375,13 @@ match * match_new(size_t start, size_t len, unsigned short match_type) {
 
 
 void match_free(match * m) {
-	if (m) {
-		if (m->next) {
-			match_free(m->next);
-		}
+	match * next;
 
+	// Iterate -- one stack frame per match would overflow the stack for a long list
+	while (m) {
+		next = m->next;
 		free(m);
+		m = next;
 	}
 }
 
